@@ -32,13 +32,14 @@ var c14 = gen.Register(&gen.Check[caseC14]{
 		}
 		return out
 	},
-	Required: []string{"bit255", "mont-domain"},
+	Required: []string{"bit255", "mont-domain", "used-object"},
 	Run: func(c caseC14, o *gen.Obs) error {
 		want := c.S.Value()
 		s := c.S.Build()
 		o.NonTrivialIf(want.Cmp(big.NewInt(1)) > 0)
 		o.ClassIf(want.Bit(255) == 1, "bit255")
 		o.ClassIf(c.S.Mont, "mont-domain")
+		o.ClassIf(c.S.Hist > 0, "used-object")
 		before := s.S
 		bits := s.Bits()
 		if s.S != before {
